@@ -32,7 +32,7 @@ CHECKS = {
                 "simple_ipc (kernel sums to 1, centre weight, uniform frame, impulse response), cdm parallel/serial (finite, non-negative, no charge created, repeated) and both "
                 "persistence models (pixel + trapped conserved per pixel, trapped >= 0, 1..5 species, capacities, 1..4 steps with refills) are run on generated non-negative frames. Exploration.",
         "design_ref": "DESIGN.md section 3, C15",
-        "note": "Tolerance 1e-9 relative on conservation sums (fastmath kernels). CDM parameters strictly positive where the model divides. CDM has a 'heavy_damage' regime (faint compact source far from the output node, about one trap per pixel and species, release within the read-out). Multi-wavelength photons use regular or generated irregular wavelength grids of 2..5 values.",
+        "note": "Tolerance 1e-9 relative on conservation sums (fastmath kernels). CDM parameters strictly positive where the model divides. CDM has a 'heavy_damage' regime (faint compact source far from the output node, about one trap per pixel and species, release within the read-out). Multi-wavelength photons use regular or generated irregular wavelength grids of 2..5 values. Part 'conversion_qe_map': conversion_with_qe_map with generated per-pixel efficiency maps (npy / fits, pixels of exactly 0 and 1): exactly map x photons without sampling, between 0 and the photons with it.",
     },
     "C16": {
         "technique": "property-based testing around code-transition points (+-1 ulp) with bounds / monotonicity / saturation oracles; exhaustive enumeration of every transition for 4..12 bits x 4 classic ranges; differential noisy-SAR(zero noise) vs SAR",
